@@ -120,7 +120,8 @@ def _quoteattr(data, entities={}):
         strings; each key will be replaced with its corresponding value.
     """
     entities['\n']='&#10;'
-    entities['\r']='&#12;'
+    entities['\r']='&#13;'
+    entities['\t']='&#9;'
     data = _sanitize(data, entities)
     if '"' in data:
         if "'" in data:
